@@ -241,14 +241,18 @@ def quarterround(self, y):
 CHACHA_QR = '''
 def quarterround(self, y):
     a, b, c, d = y[0], y[1], y[2], y[3]
-    a = a + b
-    d = rol(d ^ a, 16)
-    c = c + d
-    b = rol(b ^ c, 12)
-    a = a + b
-    d = rol(d ^ a, 8)
-    c = c + d
-    b = rol(b ^ c, 7)
+    a += b
+    d ^= a
+    d = rol(d, 16)
+    c += d
+    b ^= c
+    b = rol(b, 12)
+    a += b
+    d ^= a
+    d = rol(d, 8)
+    c += d
+    b ^= c
+    b = rol(b, 7)
     return concat([a, b, c, d])
 '''
 ROWROUND = '''
